@@ -37,6 +37,7 @@ ASSUMPTIONS = ['failure points are enumerated at collaborator-call granularity (
                'environment writes go to the real os.environ; reads are counted through a proxy']
 
 EXC = ['OSError', 'KeyError', 'ValueError', 'RuntimeError', 'package', 'abort']
+ALLCALL_EXC = ['RuntimeError', 'abort', 'OSError']
 
 
 class Abort(BaseException):
@@ -184,6 +185,138 @@ def enumerate_faults(runner, inj, scenario_label, touched, initially, excs=None)
     return status, n, nf, nnt
 
 
+
+# ------------------------------------------------------------------ every call made by the package's own code
+class CallMonitor(object):
+    """Fault points without a hand-written list of collaborators: through sys.monitoring every CALL instruction executed by
+    code objects of the module under test (the entry point, its helpers, nested functions) is an event; event k can be made
+    to raise *before* the call happens.  LINE events are recorded too (never faulted) so that the state of the environment is
+    known right after a call returns."""
+    TOOL = 4
+
+    def __init__(self, modules, pkgexc):
+        import sys
+        self.mon = sys.monitoring
+        self.pkgexc = pkgexc
+        self.codes = []
+        for m in modules:
+            fn = getattr(m, '__file__', None)
+            for obj in list(vars(m).values()):
+                co = getattr(obj, '__code__', None)
+                if co is not None and co.co_filename == fn:
+                    self._walk(co)
+                elif isinstance(obj, type):
+                    for a in vars(obj).values():
+                        co = getattr(getattr(a, '__func__', a), '__code__', None)
+                        if co is not None and co.co_filename == fn:
+                            self._walk(co)
+        self.reset(None, None, None)
+
+    def _walk(self, co):
+        if co in self.codes:
+            return
+        self.codes.append(co)
+        for c in co.co_consts:
+            if hasattr(c, 'co_code'):
+                self._walk(c)
+
+    def reset(self, k, exc, snapshot):
+        self.k, self.exc, self.snapshot = k, exc, snapshot
+        self.n = 0
+        self.events = []       # (is_call, depth, distance, name)
+
+    def _dist(self):
+        if self.snapshot is None:
+            return 0
+        env = dict(os.environ)
+        return sum(1 for v in set(env) | set(self.snapshot) if env.get(v) != self.snapshot.get(v))
+
+    @staticmethod
+    def _depth():
+        import sys
+        f = sys._getframe(2)
+        d = 0
+        while f is not None:
+            d += 1
+            f = f.f_back
+        return d
+
+    def _on_call(self, code, offset, callable_, arg0):
+        self.n += 1
+        name = getattr(callable_, '__qualname__', None) or getattr(callable_, '__name__', None) or type(callable_).__name__
+        self.events.append((True, self._depth(), self._dist(), '%s <- %s' % (name, code.co_name)))
+        if self.k is not None and self.n == self.k:
+            cls = dict(OSError=OSError, KeyError=KeyError, ValueError=ValueError, RuntimeError=RuntimeError, package=self.pkgexc, abort=Abort)[self.exc]
+            raise cls('injected fault at call event %d (%s)' % (self.k, name))
+
+    def _on_line(self, code, line):
+        self.events.append((False, self._depth(), self._dist(), 'line %d' % line))
+
+    def __enter__(self):
+        ev = self.mon.events
+        self.mon.use_tool_id(self.TOOL, 'vk-c20')
+        self.mon.register_callback(self.TOOL, ev.CALL, self._on_call)
+        self.mon.register_callback(self.TOOL, ev.LINE, self._on_line)
+        for co in self.codes:
+            self.mon.set_local_events(self.TOOL, co, ev.CALL | ev.LINE)
+        return self
+
+    def __exit__(self, *a):
+        for co in self.codes:
+            self.mon.set_local_events(self.TOOL, co, 0)
+        self.mon.register_callback(self.TOOL, self.mon.events.CALL, None)
+        self.mon.register_callback(self.TOOL, self.mon.events.LINE, None)
+        self.mon.free_tool_id(self.TOOL)
+
+
+def enumerate_call_faults(runner, cm, scenario_label, touched, excs, stride=1, offset=0):
+    """Clean run under the monitor, then one run per (call event k, exception class).  A call event is *not* a fault target when the
+    environment is nearer to the entry snapshot right after that call returned than it was before it (the call is part of the
+    restoration itself, e.g. os.environ.pop in a clean-up loop or a restoring helper)."""
+    def one(k, exc):
+        before = dict(os.environ)
+        cm.reset(k, exc, before)
+        with cm:
+            status = runner()
+        after = dict(os.environ)
+        events = list(cm.events)
+        if after != before:
+            diff = {v: [before.get(v), after.get(v)] for v in set(before) | set(after) if before.get(v) != after.get(v)}
+            calls = [e[3] for e in events if e[0]]
+            where = 'clean run' if k is None else 'fault %s at call event %d: %s' % (exc, k, calls[k - 1] if k <= len(calls) else '?')
+            other = sorted(set(diff) - set(touched))
+            kind = 'environment-not-restored' if not other else 'unrelated-variable-changed'
+            raise Violation('%s:%s' % (kind, '+'.join(sorted(diff))), dict(scenario=scenario_label, when=where, status=status, changed=diff,
+                                                                           calls_before_fault=calls[max(0, (k or 0) - 8):(k or 0)]))
+        return status, events
+    status, events = one(None, None)
+    targets = []
+    ncall = 0
+    for i, (is_call, depth, dist, name) in enumerate(events):
+        if not is_call:
+            continue
+        ncall += 1
+        after = 0                      # distance at exit of a clean run is 0 (checked above)
+        for j in range(i + 1, len(events)):
+            if events[j][1] <= depth:
+                after = events[j][2]
+                break
+        if after < dist:
+            note_count('restoring_calls_not_faulted')
+            continue
+        targets.append((ncall, dist))
+    nf = nnt = 0
+    for k, dist in targets[offset % stride::stride]:
+        for exc in excs:
+            one(k, exc)
+            nf += 1
+            nnt += 1 if dist > 0 else 0
+    note_count('fault_runs', nf + 1)
+    note_count('nontrivial_fault_runs', nnt)
+    note_count('fault_points', len(targets))
+    return status, len(targets), nf, nnt
+
+
 # ------------------------------------------------------------------ window_score
 class FakeHDU(object):
     def __init__(self, n):
@@ -238,11 +371,22 @@ def window_body(case):
                     return 'ok'
                 except (Exception, Abort) as e:  # noqa -- any failure is fine, only the environment matters
                     return '%s: %s' % (type(e).__name__, str(e)[:60])
-        status, n, nf, nnt = enumerate_faults(runner, inj, dict(case), ('PHOTO_CALIB',), state)
+        if case.get('allcalls'):
+            status, n, nf, nnt = enumerate_call_faults(runner, CallMonitor([W], PhotoopException), dict(case), ('PHOTO_CALIB',), ALLCALL_EXC)
+        else:
+            status, n, nf, nnt = enumerate_faults(runner, inj, dict(case), ('PHOTO_CALIB',), state)
     note_label('clean:' + status.split(':')[0])
     note_label('fault-points:%d' % n)
     if nnt:
         note_label('faults-after-modification')
+
+
+def window_allcalls_grid(tier):
+    for c in window_grid(tier):
+        c['allcalls'] = True
+        yield c
+    for calib in ('', '~/photo/calib'):
+        yield dict(calib=calib, resolve='@tmp', rescore=True, flist='ok', extra=[['PHOTO_CALIB_SAVE', 'x']], allcalls=True)
 
 
 def window_grid(tier):
@@ -428,7 +572,11 @@ def template_body(case):
                         return '%s: %s' % (type(e).__name__, str(e)[:60])
             finally:
                 del M.open
-        status, n, nf, nnt = enumerate_faults(runner, inj, dict(case), ('RUN2D', 'RUN1D'), state, excs=EXC[:1] if real_read else None)
+        if case.get('allcalls'):
+            status, n, nf, nnt = enumerate_call_faults(runner, CallMonitor([M], Pydlspec2dException), dict(case), ('RUN2D', 'RUN1D'), ALLCALL_EXC[:2],
+                                                       stride=case.get('stride', 1), offset=case.get('offset', 0))
+        else:
+            status, n, nf, nnt = enumerate_faults(runner, inj, dict(case), ('RUN2D', 'RUN1D'), state, excs=EXC[:1] if real_read else None)
     note_label('clean:' + status.split(':')[0])
     note_label('fault-points:%d0s' % (n // 10))
     if nnt:
@@ -449,6 +597,31 @@ def template_grid(tier):
     # the real reading stage, with and without the variables it consults
     for extra in ([], [['SPECTRO_MATCH', '/nonexistent/match'], ['PHOTO_RESOLVE', '/nonexistent/resolve']]):
         yield dict(run2d=None, run1d='orig1d', object='gal', method='pca', variant='ok', which='niter', flux=False, dump_exists=False, extra=extra, real_read=True)
+
+
+def template_allcalls_grid(tier):
+    n_yield = 0
+    for c in template_grid(tier):
+        if c.get('real_read'):
+            continue
+        if tier == 'quick':
+            # quick tier: every object/method with both variables set and both unset, the mixed states for one of them,
+            # the parameter-file variants for one initial state
+            mixed = (c['run2d'] is None) != (c['run1d'] is None)
+            if c['variant'] == 'ok' and mixed and (c['object'], c['method']) != ('gal', 'pca'):
+                continue
+            if c['variant'] != 'ok' and not (c['run2d'] == 'orig2d' and c['run1d'] is None and c['object'] == 'gal'):
+                continue
+        c['allcalls'] = True
+        if tier == 'quick':
+            # every third call event per scenario, the phase changing from scenario to scenario (scenarios with the same object and
+            # method run the same call sequence, so together they cover it); the thorough tier faults every event of every scenario
+            n_yield += 1
+            c['stride'], c['offset'] = 3, n_yield
+        yield c
+    for flux, dump in ((True, False), (False, True), (True, True)):
+        yield dict(run2d='orig2d', run1d=None, object='gal', method='pca', variant='ok', which='niter', flux=flux, dump_exists=dump, extra=[], allcalls=True)
+    yield dict(run2d=None, run1d='orig1d', object='qso', method='pca', variant='ok', which='niter', flux=True, dump_exists=False, extra=[], allcalls=True, verbose=True)
 
 
 @st.composite
@@ -482,6 +655,10 @@ SUBCHECKS = [
              doc='generated scenarios with unrelated environment variables and odd values'),
     SubCheck('template_input_grid', template_body, kind='exhaustive', cases=template_grid, classify=template_classify, nontrivial=nontrivial, shards=(16, 16), floor=0.0,
              doc='RUN2D/RUN1D set-unset x object/method x parameter-file variants; every fault point x 6 exception classes'),
+    SubCheck('window_score_allcalls', window_body, kind='exhaustive', cases=window_allcalls_grid, classify=window_classify, nontrivial=nontrivial, shards=(4, 8), floor=0.0,
+             doc='fault points = every call instruction executed by the code of pydl/photoop/window.py itself (sys.monitoring), not a list of named collaborators'),
+    SubCheck('template_input_allcalls', template_body, kind='exhaustive', cases=template_allcalls_grid, classify=template_classify, nontrivial=nontrivial, shards=(16, 16), floor=0.0,
+             doc='fault points = every call instruction executed by the code of pydl/pydlspec2d/spec1d.py itself during template_input (sys.monitoring)'),
     SubCheck('template_input_generated', template_body, strategy=template_case, classify=template_classify, nontrivial=nontrivial, quick=160, thorough=2400, shards=(16, 16), floor=0.0,
              doc='generated scenarios: unrelated variables, malformed parameter files, plots, existing dump file'),
 ]
